@@ -421,6 +421,20 @@ class Env:
         self.lm = lm
         self.libfile = lm.__file__
 
+    def start_time(self):
+        """the instant `elapsed` is measured from: the module constant when it is still called start_time, otherwise
+        the instant the first record implies (every later record must imply the same one)"""
+        st = getattr(self.lm, "start_time", None)
+        if st is not None:
+            return st
+        if getattr(self, "_start", None) is None:
+            self.logger.info("start-probe")
+            rec = self.sink.records.pop()
+            self._start = rec["time"] - rec["elapsed"]
+            if not (self._start <= rec["time"]):
+                raise RuntimeError("C17 harness: cannot infer the start instant")
+        return self._start
+
     def close(self):
         try:
             self.logger.remove(self.hid)
@@ -602,7 +616,7 @@ def run_chain(ctx, env, chain_state, nlinks, in_thread, foreign, full_sweep, lin
         todo = jobs
     bad = 0
 
-    start_us = to_us(env.lm.start_time)
+    start_us = to_us(env.start_time())
     JK = ("leaf", "method", "via", "depth", "flags", "reraise", "rename")
     for ji, (job, (o, rs)) in enumerate(zip(jobs, recs_by_job)):
         res, err, (tid, tname, pname), t0, t1 = o
@@ -704,8 +718,8 @@ def judge_time(rec, t0, t1, env):
     local = pydt.datetime.fromtimestamp(ts).astimezone()
     if tm.utcoffset() != local.utcoffset():
         return "record time offset %r is not the local offset %r" % (tm.utcoffset(), local.utcoffset())
-    if rec["elapsed"] != tm - env.lm.start_time:
-        return "elapsed %r is not time - start_time = %r" % (rec["elapsed"], tm - env.lm.start_time)
+    if rec["elapsed"] != tm - env.start_time():
+        return "elapsed %r is not time - start_time = %r" % (rec["elapsed"], tm - env.start_time())
     prev, prev_t1 = _last["elapsed"], _last["t1"]
     _last["elapsed"], _last["t1"] = rec["elapsed"], t1
     if prev is not None and prev_t1 is not None and prev_t1 <= t0 and rec["elapsed"] < prev:
@@ -840,8 +854,18 @@ def stream_fallback(ctx, env):
             report(ctx, "get_frame_fallback(%d) gives %r, sys._getframe(%d) gives %r" % (n, b, n, a),
                    {"stream": "fallback", "n": n, "stack": depth_here, "expected": a, "observed": b}, key=key)
     # end to end: the logger running on the fallback
-    old = env.lm.get_frame
-    env.lm.get_frame = fb
+    # (the logger reaches get_frame through a module global of loguru._logger or through the _get_frame module:
+    # every binding of the selected function is swapped, whatever it is called)
+    sel = getattr(gf, "get_frame", None)
+    swapped = []
+    for mod in (env.lm, gf):
+        for nm, val in list(vars(mod).items()):
+            if val is sel and callable(val) and val is not fb:
+                swapped.append((mod, nm, val))
+                setattr(mod, nm, fb)
+    if not swapped:
+        ctx.stat("fallback_e2e_skipped")
+        return
     try:
         def here():
             return env.logger.opt(depth=1).info("fb")
@@ -867,7 +891,8 @@ def stream_fallback(ctx, env):
                 {"stream": "fallback-e2e", "expected": "placeholders", "observed": repr(err)},
                 key=KEY_FALLBACK)
     finally:
-        env.lm.get_frame = old
+        for mod, nm, val in swapped:
+            setattr(mod, nm, val)
 
 
 WITNESS_SRC = """
